@@ -8,8 +8,10 @@
    - those are observed by harness/c07 only (child process, recover, watchdog, census).
    Models: Model/H1Resp.v (C04), Model/H1Limits.v, Model/BodyStages.v, Model/Decode.v (C14). *)
 From ReqV Require Import Lib.Bytes Model.Decode Model.BodyStages Model.H1Resp Model.H1Limits
-  Proofs.BodyStagesProofs Proofs.H1LimitsProofs.
+  Model.AltSvc Model.H2Frame Proofs.BodyStagesProofs Proofs.H1LimitsProofs Proofs.AltSvcProofs Proofs.C07Misc.
+From ReqV Require Model.Digest Gen.C07Consts.
 From Coq Require Import Lia.
+Local Open Scope nat_scope.
 
 (* ---------- HTTP/1.1: every byte stream yields a response or an error ---------- *)
 
@@ -97,6 +99,70 @@ Theorem C07_stages_pinned_refuted :
 Proof. exact pinned_refuted. Qed.
 Print Assumptions C07_stages_pinned_refuted.
 
+(* ---------- Alt-Svc: the parser terminates on every header text ---------- *)
+
+(* progress measure: a parseKv call on a non-empty buffer consumes at least one byte *)
+Theorem C07_altsvc_kv_progress : forall s, s <> [] -> length (k_rest (parse_kv s)) < length s.
+Proof. exact altsvc_kv_progress. Qed.
+Print Assumptions C07_altsvc_kv_progress.
+
+(* each iteration of Parse's loop consumes at least one byte or ends the loop *)
+Theorem C07_altsvc_parse_terminates : forall s,
+  let '(a, e, s') := parse_one s in
+  (e = PNil -> length s' < length s) /\ length s' <= length s.
+Proof. exact altsvc_parse_terminates. Qed.
+Print Assumptions C07_altsvc_parse_terminates.
+
+Theorem C07_altsvc_parse_total : forall v, snd (parse_header v) <> PFuel.
+Proof. exact altsvc_parse_total. Qed.
+Print Assumptions C07_altsvc_parse_total.
+
+Theorem C07_altsvc_entries_bounded : forall v, length (fst (parse_header v)) <= length v.
+Proof. exact altsvc_entries_bounded. Qed.
+Print Assumptions C07_altsvc_entries_bounded.
+
+(* ---------- digest challenge (model of C20) ---------- *)
+
+Theorem C07_parse_challenge_total : forall input,
+  match Digest.parse_challenge input with
+  | inl _ => True
+  | inr e => e = Digest.EBadChallenge \/ e = Digest.ECharset
+  end.
+Proof. exact parse_challenge_total. Qed.
+Print Assumptions C07_parse_challenge_total.
+
+Theorem C07_challenge_params_bounded : forall s, length (Digest.split_params s) <= S (length s).
+Proof. exact challenge_params_bounded. Qed.
+Print Assumptions C07_challenge_params_bounded.
+
+(* ---------- HTTP/2 frame reader (model of C05): maxReadSize ---------- *)
+
+Theorem C07_h2_frame_too_large : forall st input,
+  (frameHeaderLen <=? lenN input)%N = true ->
+  (rs_max st <? fh_len (h2_read_header (firstn 9 input)))%N = true ->
+  read_frame st input = (Err EFrameTooLarge, skipn 9 input, st).
+Proof. exact h2_frame_too_large. Qed.
+Print Assumptions C07_h2_frame_too_large.
+
+Theorem C07_h2_frame_within_limit : forall st input f rest st',
+  read_frame st input = (Ok f, rest, st') ->
+  (N.of_nat (length input - length rest) <= 9 + rs_max st)%N.
+Proof. exact h2_frame_within_limit. Qed.
+Print Assumptions C07_h2_frame_within_limit.
+
+(* ---------- translator tie: limits and tables regenerated from the source ---------- *)
+
+Theorem C07_consts_agree :
+  N.of_nat max_1xx_responses = Gen.C07Consts.fork_max_1xx_h1 /\
+  Gen.C07Consts.fork_max_1xx_h2 = Gen.C07Consts.fork_max_1xx_h1 /\
+  Gen.C07Consts.fork_max_1xx_h3 = Gen.C07Consts.fork_max_1xx_h1 /\
+  text_markers = Gen.C07Consts.fork_text_content_types /\
+  Gen.C07Consts.fork_default_max_header_h1 = 10485760%N /\
+  Gen.C07Consts.fork_default_max_header_h3 = 10485760%N /\
+  Gen.C07Consts.fork_h3_settings_cap = 8192%N.
+Proof. exact c07_consts_agree. Qed.
+Print Assumptions C07_consts_agree.
+
 (* non-vacuity: a stream of two informational heads and a chunked final response, read under a
    64-byte-per-head budget, ends in that response; six informational heads meet the premise of
    the rejection theorem; a full option set builds a five-layer stack *)
@@ -114,5 +180,8 @@ Example C07_nonvacuous :
   flatten (pipeline H1 {| t_head := false; t_wire_cl := 9; t_ended := false; t_asked := true; t_auto := false |}
              {| p_callback := true; p_decode := {| d_disable := false; d_custom := None; d_resp_ae := [] |}; p_dumpers := 1 |}
              (bs "GZIP") (bs "text/html") o_none)
-    = ([TDump; TAutoDecode; TGzipH1; TEofSignal; TCallback], false).
+    = ([TDump; TAutoDecode; TGzipH1; TEofSignal; TCallback], false) /\
+  parse_header (bs "h2=""alt.example:443"", h3="":8443""; ma=3600; persist=1") =
+    ([ {| e_proto := bs "h2"; e_host := bs "alt.example"; e_port := bs "443"; e_ma := false |};
+       {| e_proto := bs "h3"; e_host := []; e_port := bs "8443"; e_ma := true |} ], PNil).
 Proof. vm_compute. repeat split; try lia. eexists. split; reflexivity. Qed.
